@@ -31,6 +31,10 @@ func ConvertError(f *fs.File, err error) Error {
 	case errors.DocumentError:
 		return e
 
+	case errors.Error:
+		// The error says itself where it is, which may be another file than f.
+		return e
+
 	case lib.ParsingError:
 		return sdkError{
 			filename: f.Name(),
